@@ -10,7 +10,7 @@ Leg B: (i) operation-granularity correspondence: multi-thread histories, one pro
        run of the same schedule.
 Leg C: oracle on the implementation's observations only (sched_common.oracle_case): no hang / panic; an emission that
        starts with collector c current is delivered iff c's filter accepts it; nothing is delivered to a rejecting
-       collector (known finding F21: a global default installed while the emission runs); at quiescence every probe is
+       collector (known finding F41: a global default installed while the emission runs); at quiescence every probe is
        delivered iff the current collector accepts it; MAX_LEVEL is never below a live collector's hint; every
        registered callsite was offered to every collector live at the end."""
 import itertools
@@ -216,7 +216,7 @@ def detect_hooks(ctx, binpath):
     return bool((r["hooks"] or {}).get("core")), seen, r
 
 
-def compare_and_judge(ctx, rep, cases, impl, model, stream, nontrivial_rule, known="F21"):
+def compare_and_judge(ctx, rep, cases, impl, model, stream, nontrivial_rule, known="F41"):
     disagree = []
     for i, (case, im) in enumerate(zip(cases, impl)):
         rep.evaluations += 1
